@@ -45,8 +45,10 @@ func (f *File) SetMapping(codec *charcode.Codec, data map[charcode.Code]cid.CID)
 	for code, cid := range data {
 		buf = codec.AppendCode(buf[:0], code)
 		if f.Parent != nil {
-			parentCID := f.Parent.LookupCID(buf)
-			if parentCID == cid {
+			// only a mapping of the parent chain makes the entry redundant; an
+			// answer from notdef entries can be shadowed by notdef entries of
+			// this file or of a file that uses it as parent
+			if parentCID, ok := f.Parent.lookupMapped(buf); ok && parentCID == cid {
 				continue
 			}
 		}
